@@ -1454,6 +1454,40 @@ const CURATED_PATHS: &[&str] = &[
 	"a/../b:c", "/..//x", "a/..//x", "x/./", "x/../..", "a..", "...", "a/b..", "./.", "/././", "./:", ":", "a:b/..", "./a:b/..",
 ];
 
+/// A path whose byte length is chosen around the 512-byte threshold (or well beyond it) and
+/// whose segment count is beyond 16, with an optional dot-segment prefix that normalisation
+/// removes and a first surviving segment of every interesting class.
+fn long_path(g: &mut Gen) -> String {
+	let target = *g.rng.pick(&[300usize, 505, 509, 510, 511, 512, 513, 514, 515, 520, 600, 900, 1500]);
+	let mut s = String::new();
+	s.push_str(*g.rng.pick(&["", "", "/", "/", "x/../", "/../", "./", "x/y/../../", "/x/../", "../"]));
+	s.push_str(*g.rng.pick(&["a", "a", "seg", "c:", "a:b", "12:30", "", "", ".", "..", "%3A"]));
+	let mid_dots = g.rng.chance(1, 3);
+	loop {
+		let seg = if mid_dots && g.rng.chance(1, 6) {
+			g.rng.pick(&[".", "..", ""]).to_string()
+		} else if g.rng.chance(1, 3) {
+			g.segment()
+		} else {
+			let n = g.rng.range(1, 24);
+			g.chars(n, b"")
+		};
+		if s.len() + 1 + seg.len() > target {
+			break;
+		}
+		s.push('/');
+		s.push_str(&seg);
+	}
+	// land exactly on the target length: one more padded segment
+	if s.len() < target {
+		s.push('/');
+		while s.len() < target {
+			s.push('p');
+		}
+	}
+	s
+}
+
 pub fn gen_init(rng: &mut Rng, prop: Prop, stats: &mut Stats) -> (Init, Swarm) {
 	let kinds: &[Kind] = match prop {
 		Prop::C11 => &[Kind::UriBuf, Kind::UriRefBuf, Kind::IriBuf, Kind::IriRefBuf],
@@ -1477,7 +1511,28 @@ pub fn gen_init(rng: &mut Rng, prop: Prop, stats: &mut Stats) -> (Init, Swarm) {
 			Route::Default => String::new(),
 			Route::FromScheme => format!("{}:", g.scheme()),
 			_ => {
-				if kind.is_path() {
+				if prop != Prop::C11 && g.rng.chance(1, 16) {
+					// long mode: a path built to sit at or beyond the two inline-buffer thresholds of
+					// the normaliser (16 segments, 512 bytes), with the shapes that matter in front
+					let long = long_path(&mut g);
+					if kind.is_path() {
+						long
+					} else {
+						let prefix = if kind.needs_scheme() { *g.rng.pick(&["s:", "s://h", "s://h:8"]) } else { *g.rng.pick(&["", "", "s:", "//h", "s://h"]) };
+						let mut path = long;
+						if prefix.contains("//") && !path.starts_with('/') {
+							path.insert(0, '/');
+						}
+						if !prefix.contains("//") && path.starts_with("//") {
+							path.insert_str(0, "/.");
+						}
+						if prefix.is_empty() && path.split('/').next().map(|x| x.contains(':')).unwrap_or(false) {
+							path.insert_str(0, "./");
+						}
+						let tail = *g.rng.pick(&["", "", "?q", "#f", "?some-long-enough-query-string&other=value#frag", "?a:b"]);
+						format!("{}{}{}", prefix, path, tail)
+					}
+				} else if kind.is_path() {
 					if g.rng.chance(1, 10) {
 						g.rng.pick(CURATED_PATHS).to_string()
 					} else {
@@ -1563,7 +1618,9 @@ fn gen_segment_arg(g: &mut Gen, cur_path: &[u8]) -> String {
 }
 
 fn gen_path_op(g: &mut Gen, cfg: &RunCfg, cur_path: &[u8]) -> PathOp {
-	match g.rng.weighted(&[10, 6, 2, 5, 4, 3, 1]) {
+	// long paths are there for the normaliser: call it more often on them
+	let w_norm = if cur_path.len() > 256 { 12 } else { 3 };
+	match g.rng.weighted(&[10, 6, 2, 5, 4, w_norm, 1]) {
 		0 => PathOp::Push(gen_segment_arg(g, cur_path)),
 		1 => PathOp::Pop,
 		2 => PathOp::Clear,
